@@ -239,8 +239,10 @@ def param_sync_rule(prog, res):
                     break
                 sides = [R.render(x) for x in cn['ch']]
                 val = R.render(f.call_args(c)[0])
-                other = [s_ for s_ in sides if val not in s_ and s_ not in val]
-                if len(other) == 1:
+                unc = lambda x_: re.sub(r'^\((?:unsigned |signed )?\w[\w ]*\)(?=[\w(])', '', x_)
+                mine = [s_ for s_ in sides if unc(s_) == unc(val)]
+                other = [s_ for s_ in sides if unc(s_) != unc(val)]
+                if len(mine) == 1 and len(other) == 1:
                     mo = re.search(r'parameter\("(\w+)"\)\.valuesAs', other[0])
                     if mo and mo.group(1) != key:
                         res.viol('param-sync', 'update of %s is skipped when unchanged' % key, f.loc(an['id']), '%s is (re)written only when the new value differs from %s: the test compares with another parameter, so a stale %s survives whenever '
